@@ -10,4 +10,5 @@ import Helm.Props.C18
 #print axioms Helm.Props.C18.get_bad_constraint
 #print axioms Helm.Props.C18.resolve_locks_highest
 #print axioms Helm.Props.C18.tag_highest_satisfying
-#print axioms Helm.Props.C18.counterexample_null_entries
+#print axioms Helm.Props.C18.load_with_nulls
+#print axioms Helm.Props.C18.kept_iff
